@@ -37,16 +37,38 @@ from .contexts import AsyncContext
 from .decorators import AsyncDecorator, AsyncDecoratorBinder, async_call, asynq
 
 
+# separates the normalized parameters from the keywords that go to the function's **kwargs
+_extra_keywords = object()
+
+
 def _args_key(args, kwargs, arg_names, kwonly_names, kwargs_defaults):
     """Normalizes the arguments of a call into a hashable cache key.
 
     Like qcore's get_args_tuple, but positional arguments beyond arg_names (they go to the
-    function's *varargs) are never matched against the keyword-only parameters.
+    function's *varargs) are never matched against the keyword-only parameters, and the
+    keywords that go to the function's **kwargs are kept apart from the positional
+    arguments: f(1, ("a", 2)) and f(1, a=2) are different calls.
 
     """
+    extra = ()
+    if kwargs:
+        names = arg_names + kwonly_names
+        # a keyword that names a parameter already given positionally can only be meant
+        # for **kwargs (the parameter is positional-only, or the call is a TypeError anyway)
+        given = arg_names[: len(args)]
+        extra_names = sorted(k for k in kwargs if k not in names or k in given)
+        if extra_names:
+            extra = (_extra_keywords,) + tuple((k, kwargs[k]) for k in extra_names)
+            kwargs = {k: kwargs[k] for k in kwargs if k not in extra_names}
     if len(args) > len(arg_names):
-        return tuple(args) + get_args_tuple((), kwargs, kwonly_names, kwargs_defaults)
-    return get_args_tuple(args, kwargs, arg_names + kwonly_names, kwargs_defaults)
+        return (
+            tuple(args)
+            + get_args_tuple((), kwargs, kwonly_names, kwargs_defaults)
+            + extra
+        )
+    return (
+        get_args_tuple(args, kwargs, arg_names + kwonly_names, kwargs_defaults) + extra
+    )
 
 
 @asynq()
